@@ -306,6 +306,57 @@ WRAP = st.tuples(st.just('qr_find_scu'), st.sampled_from([svc.PATIENT_FIND, svc.
                  st.just('c_find'))
 
 
+def clock_step_case(step):
+    """While the query user waits for the next response (DULServiceProvider.receive, time-out 3 s) the wall clock is
+    stepped - NTP, a suspended laptop, an administrator.  The response arrives half a second into the wait: it is
+    received.  (The monotonic clock is untouched, as in reality.)"""
+    import threading
+    import time as real_time
+    from pynetdicom2 import dulprovider, exceptions
+    case = {'side': 'clock-step', 'step': step}
+
+    class Waiting(dulprovider.DULServiceProvider):
+        def start(self):        # (no event loop needed: only the user's side of the indication queue is exercised)
+            pass
+
+    class SteppedTime(object):
+        def __init__(self):
+            self.t0 = real_time.time()
+
+        def time(self):
+            now = real_time.time()
+            return now + (step if now - self.t0 > 0.15 else 0.0)
+
+        def __getattr__(self, name):
+            return getattr(real_time, name)
+    saved = dulprovider.time
+    dulprovider.time = SteppedTime()
+    try:
+        prov = Waiting(frozenset(), None, None, 16384)
+        timer = threading.Timer(0.5, lambda: prov.to_service_user.put('NEXT-RESPONSE'))
+        timer.daemon = True
+        timer.start()
+        t0 = real_time.time()
+        try:
+            got = prov.receive(3.0)
+        except exceptions.DCMTimeoutError:
+            raise Violation('%s:scu:clock-step' % PROP, 'the wall clock was stepped by %+d s while the user waited (time-out 3 s) '
+                            'for a response that arrived after 0.5 s: the wait ended with DCMTimeoutError after %.1f s'
+                            % (step, real_time.time() - t0), case)
+        if got != 'NEXT-RESPONSE':
+            raise Violation('%s:scu:clock-step' % PROP, 'receive() returned %r' % (got,), case)
+    finally:
+        dulprovider.time = saved
+
+
+def _reproduced_clock_step(step):
+    from .. import loopback as lb
+    try:
+        lb.reproduced(clock_step_case, step)      # (real time: three times in a row, or it does not count)
+    except lb.Inconclusive:
+        pass
+
+
 def nontrivial(matches):
     return len(matches) >= 2 or len({c for _, c in matches}) > 1
 
@@ -343,6 +394,9 @@ def run(ctx):
                 'non-trivial = >=2 matches, mixed pending codes or a multi-fragment response')
     ctx.assumptions = ['matches carry only pending statuses (a non-pending status supplied by the handler is outside the statement)',
                        'loopback composition of both sides is exercised by C20/C15 style checks, not here']
+    for step in (3600, 86400 * 30):
+        ctx.case(('clock-step', step), True, labels=['wall-clock-stepped-while-waiting'], sample={'step_seconds': step})
+        ctx.check(_reproduced_clock_step, step)
     n = 1500 if ctx.thorough else 150
     parallel(ctx, shard, [{'n': n} for _ in range(16 if ctx.thorough else 12)])
 
@@ -350,6 +404,9 @@ def run(ctx):
 def replay(case):
     quiet_warnings()
     m = [(a, b) for a, b in case['matches']]
+    if case['side'] == 'clock-step':
+        clock_step_case(case['step'])
+        return
     if case['side'] == 'scp':
         if case.get('reuse'):
             m = [(a, b) for a, b in case['fills']]
